@@ -176,8 +176,8 @@ def run(ctx):
         closures.append(cr)
         meta[f"automaton_states_{which}"] = len(cstates)
         meta[f"automaton_transitions_{which}"] = len(ctrans)
-        if ctx.quick and len(ctrans) > 6000:
-            ctrans = rng.sample(ctrans, 4000)
+        if ctx.quick and len(ctrans) > 10000:
+            ctrans = rng.sample(ctrans, 7000)
         meta[f"automaton_transitions_{which}_replayed"] = len(ctrans)
         specs += bc.specs_from(which, cstates + ctrans)
     # longer behaviours of the automata (tlc -simulate)
